@@ -437,7 +437,7 @@ func oracle(pre state, o op, a answer, effD, effM int64) string {
 
 type runner struct {
 	w    *gen.Writer
-	proc *gen.LineProc
+	proc *gen.IxsLineProc
 }
 
 func (r *runner) run(h history, tag string, detail func(i int) json.RawMessage) {
@@ -614,7 +614,7 @@ func main() {
 	w := gen.NewWriter(f.Out)
 	defer w.Close()
 	bin := gen.BuildIndexserver("c30")
-	proc := gen.StartLineProc(bin, "ZOEKT_VERIF_DRIVER=c30")
+	proc := gen.StartIxsLineProc(bin, "ZOEKT_VERIF_DRIVER=c30")
 	defer proc.Close()
 	rn := &runner{w: w, proc: proc}
 
